@@ -160,9 +160,11 @@ class Farm:
                             self._put(tpl)
                         tpl = self._get(job["hashseed"], fresh_templates)
                     try:
-                        msg = {"job": job["job"], "spec": job["spec"], "wall_limit": job.get("wall_limit", 120), "cpu": widx}
+                        spec = job["spec"]() if callable(job.get("spec")) else job.get("spec")
+                        msg = {"job": job["job"], "spec": spec, "wall_limit": job.get("wall_limit", 120), "cpu": widx}
                         if job.get("cmd"):
                             msg = {"job": job["job"], "cmd": job["cmd"], "n": job.get("n")}
+                            spec = None
                         ans = tpl.run(msg)
                     except HarnessFailure as e:
                         ans = {"job": job["job"], "status": "harness_error", "error": str(e)}
@@ -171,10 +173,11 @@ class Farm:
                         except Exception:
                             pass
                         tpl = None
+                    if on_result:
+                        if on_result(job, ans, spec if not job.get("cmd") else None) == "drop":
+                            ans = {"job": job["job"], "status": ans["status"], "dropped": True}
                     with lock:
                         results[job["job"]] = ans
-                    if on_result:
-                        on_result(job, ans)
             except BaseException as e:  # noqa: BLE001
                 failures.append(repr(e))
             finally:
@@ -387,6 +390,86 @@ def hash_seeds(master, n):
     return hs
 
 
+class Stats:
+    """Streaming accumulation of what the runs of a batch covered."""
+
+    def __init__(self, prop):
+        self.prop = prop
+        self.n = 0
+        self.faults = Counter()
+        self.probes = Counter()
+        self.cls = Counter()
+        self.hs = Counter()
+        self.steps = self.switches = self.lib_ops = self.returned = 0
+        self.sim_s = 0.0
+        self.sigs, self.fps, self.pairs, self.logs_nt = set(), set(), set(), set()
+        self.samples = []
+        self.first = None
+        self.fs_writes = self.fs_opens = self.clock_reads = 0
+        self.op_counts = Counter()
+
+    def nontrivial(self, rec):
+        subj = {"C14": model.PUBLIC_OPS, "C12": ("canon", "serialize"), "C16": ("permute",)}[self.prop]
+        n = sum(1 for o in rec["ops"] if o["op"] in subj and o["st"] in ("ok", "exc"))
+        kinds = [k for k, c in rec["faults"].items() if c and k != "hashseed"]
+        return n >= 2 and len(kinds) >= 1
+
+    def add(self, spec, rec):
+        self.n += 1
+        for k, c in rec["faults"].items():
+            self.faults[k] += c
+        for k, c in rec["probes"].items():
+            self.probes[k] += c
+        for o in rec["ops"]:
+            self.op_counts[f"{o['op']}:{o['st']}"] += 1
+        self.cls[rec["cls"]] += 1
+        self.hs[rec["hashseed"]] += 1
+        self.steps += rec["steps"]
+        self.switches += rec["switches"]
+        self.sim_s += rec["sim_seconds"]
+        self.lib_ops += rec["lib_ops"]
+        self.returned += rec["returned"]
+        self.fs_writes += rec.get("fs_writes", 0)
+        self.fs_opens += rec.get("fs_opens", 0)
+        self.clock_reads += rec.get("clock_reads", 0)
+        if rec["switches"]:
+            self.sigs.add(rec["sw_sig"])
+        self.fps.update(rec["fingerprints"])
+        self.pairs.update(rec["conflict_pairs"])
+        nt = self.nontrivial(rec)
+        if nt:
+            self.logs_nt.add(rec["log"])
+        if self.first is None:
+            self.first = abridge(spec, rec)
+        if nt and len(self.samples) < 3:
+            self.samples.append(abridge(spec, rec))
+
+
+def abridge(spec, rec):
+    def short(ops):
+        return [dict(o) for o in ops[:12]] + ([f"... {len(ops) - 12} more"] if len(ops) > 12 else [])
+
+    return {
+        "run_seed": spec["seed"],
+        "class": spec["cls"],
+        "hashseed": spec["hashseed"],
+        "mean_burst": spec.get("mean_burst"),
+        "profile": spec.get("profile"),
+        "gc_auto": spec.get("gc_auto"),
+        "stall": spec.get("stall"),
+        "clock_start": spec.get("clock_start"),
+        "fs_mtime_gran": spec.get("fs_mtime_gran"),
+        "warmup_ops": len(spec["warmup"]),
+        "threads": [short(ops) for ops in spec["threads"]],
+        "schedule_head": rec["schedule"][:12],
+        "schedule_segments": len(rec["schedule"]),
+        "steps": rec["steps"],
+        "switches": rec["switches"],
+        "faults_fired": rec["faults"],
+        "results": [[o["c"], o["i"], o["op"], o["st"], o.get("dg")] for o in rec["ops"][:16]],
+    }
+
+
 class Batch:
     def __init__(self, prop, tier, master, params=None, farm=None, verbose=True):
         self.prop, self.tier, self.master = prop, tier, master
@@ -400,10 +483,14 @@ class Batch:
         self.deadline = self.t_start + self.p["wall"]
         self.HS = hash_seeds(master, self.p["hashseeds"])
         self.pool = None
-        self.specs = {}
-        self.records = {}
-        self.walls = {}
+        self.n_runs = 0
+        self.knobs = None
+        self.stats = Stats(prop)
+        self.violating = {}  # run index -> (spec, record, violations)
+        self.violation_count = Counter()
         self.harness_errors = []
+        self.lock = threading.Lock()
+        self._spec_cache = {}
 
     def say(self, *a):
         if self.verbose:
@@ -434,17 +521,40 @@ class Batch:
             if r and r["st"] == "ok":
                 self.refs.learn_header_mask([{"op": "read", "text": t}, {"op": "write", "arg": 0, "calc": False}], pool.texts, {})
                 break
-        self.say(f"pool: {len(pool.mol_valid)} molfiles, {len(pool.mol_bad)} malformed, {len(pool.str_pipeline)} pipeline strings, {len(pool.str_respelled)} respelled, {len(pool.str_mutated)} mutated, {len(pool.str_boundary)} boundary; header mask {self.refs.l2_mask}")
+        self.say(f"pool: {len(pool.mol_valid)} molfiles ({len(pool.redrawn)} redrawn, {len(pool.samesize)} same-size variants), {len(pool.mol_bad)} malformed, {len(pool.str_pipeline)} pipeline strings, {len(pool.str_respelled)} respelled, {len(pool.str_mutated)} mutated, {len(pool.str_semantic)} semantic rejects, {len(pool.str_boundary)} boundary; header mask {self.refs.l2_mask}")
 
     # -- specs & references ------------------------------------------------------
     def run_seed(self, i):
         return gen.H(self.master, self.prop, self.tier, i)
 
+    def spec(self, i):
+        with self.lock:
+            s = self._spec_cache.get(i)
+        if s is None:
+            s = gen.gen_spec(self.run_seed(i), self.prop, self.pool, self.HS, self.knobs)
+            with self.lock:
+                if len(self._spec_cache) > 256:
+                    self._spec_cache.clear()
+                self._spec_cache[i] = s
+        return s
+
     def make_specs(self, n=None, knobs=None):
-        n = n if n is not None else self.p["runs"]
-        for i in range(n):
-            r = self.run_seed(i)
-            self.specs[i] = gen.gen_spec(r, self.prop, self.pool, self.HS, knobs)
+        self.n_runs = n if n is not None else self.p["runs"]
+        self.knobs = knobs
+
+    def collect_refs(self):
+        keydefs, files_of_key = {}, {}
+        for i in range(self.n_runs):
+            spec = self.spec(i)
+            for _, ops in model.spec_clients(spec):
+                kd = {}
+                model.client_keys(ops, spec, kd)
+                for k, chain in kd.items():
+                    if k not in keydefs and k not in self.refs.by_key:
+                        keydefs[k] = chain
+                        files_of_key[k] = spec["files"]
+        self.refs.ensure(keydefs, self.pool.texts, files_of_key)
+        return len(keydefs)
 
     def ensure_refs_for(self, specs):
         keydefs, files_of_key, texts = {}, {}, {}
@@ -461,26 +571,39 @@ class Batch:
         return len(keydefs)
 
     # -- execution ------------------------------------------------------------------
-    def execute(self, ids=None):
-        ids = list(self.specs) if ids is None else ids
-        jobs = [{"job": i, "hashseed": self.specs[i]["hashseed"], "spec": self.specs[i], "wall_limit": 180} for i in ids]
+    def execute(self):
+        jobs = []
+        for i in range(self.n_runs):
+            jobs.append({"job": i, "hashseed": self.spec(i)["hashseed"], "spec": (lambda i=i: self.spec(i)), "wall_limit": 180})
         done = [0]
+        total = len(jobs)
 
-        def on_result(job, ans):
-            done[0] += 1
-            if self.verbose and done[0] % 200 == 0:
-                self.say(f"{done[0]}/{len(jobs)} runs done")
-
-        res = self.farm.run(jobs, on_result=on_result, deadline=self.deadline)
-        for i in ids:
-            ans = res[i]
-            self.walls[i] = ans.get("wall", 0)
+        def on_result(job, ans, spec):
+            i = job["job"]
+            with self.lock:
+                done[0] += 1
+                d = done[0]
+            if self.verbose and d % 200 == 0:
+                self.say(f"{d}/{total} runs done")
             if ans["status"] != "ok":
-                self.harness_errors.append((i, ans["status"], ans.get("error", "")))
-            elif ans["record"]["errors"]:
-                self.harness_errors.append((i, "client_error", ans["record"]["errors"][0]))
-            else:
-                self.records[i] = ans["record"]
+                with self.lock:
+                    self.harness_errors.append((i, spec.get("seed"), ans["status"], ans.get("error", "")))
+                return "drop"
+            rec = ans["record"]
+            if rec["errors"]:
+                with self.lock:
+                    self.harness_errors.append((i, spec.get("seed"), "client_error", rec["errors"][0]))
+                return "drop"
+            vs = evaluate(spec, rec, self.refs)
+            with self.lock:
+                self.stats.add(spec, rec)
+                for v in vs:
+                    self.violation_count[vclass(v)] += 1
+                if vs and len(self.violating) < 400:
+                    self.violating[i] = (spec, rec, vs)
+            return "drop"
+
+        self.farm.run(jobs, on_result=on_result, deadline=self.deadline)
 
     def run_one(self, spec, full=False):
         """Execute an explicit spec in a fresh fork; returns (record, violations)."""
@@ -508,3 +631,51 @@ class Batch:
             else:
                 out.append((ans["record"], evaluate(s, ans["record"], self.refs)))
         return out
+
+    def explain(self, spec, v):
+        """Observed and expected encodings of the violating observation (full rerun)."""
+        out = {}
+        try:
+            rec, _ = self.run_one(spec, full=True)
+            for o in rec["ops"]:
+                if o["c"] == v["c"] and o["i"] == v["i"]:
+                    out["observed"] = o.get("enc")
+            if v.get("key"):
+                kd = {}
+                for _, ops in model.spec_clients(spec):
+                    model.client_keys(ops, spec, kd)
+                chain = kd.get(v["key"])
+                if chain:
+                    rs = ref_spec(chain, spec["texts"], spec["files"])
+                    rs["full"] = True
+                    res = self.farm.run([{"job": "ref", "hashseed": 0, "spec": rs}])
+                    ops = res["ref"]["record"]["ops"]
+                    out["expected"] = ops[-1].get("enc")
+            out["first_difference"] = first_difference(out.get("expected"), out.get("observed"))
+        except Exception as e:  # noqa: BLE001
+            out["error"] = repr(e)
+        return out
+
+
+def first_difference(a, b):
+    if a is None or b is None:
+        return None
+    if a.get("t") != b.get("t"):
+        return f"kind differs: expected {a.get('t')} ({_short(a)}), observed {b.get('t')} ({_short(b)})"
+    if a["t"] == "graph":
+        for part in ("nodes", "edges"):
+            x, y = a[part], b[part]
+            for k in range(max(len(x), len(y))):
+                xa = x[k] if k < len(x) else None
+                ya = y[k] if k < len(y) else None
+                if xa != ya:
+                    return f"{part}[{k}]: expected {xa}, observed {ya}"
+        return None
+    if a["t"] == "mol":
+        for k in range(max(len(a["body"]), len(b["body"]))):
+            xa = a["body"][k] if k < len(a["body"]) else None
+            ya = b["body"][k] if k < len(b["body"]) else None
+            if xa != ya:
+                return f"body line {k}: expected {xa!r}, observed {ya!r}"
+        return None
+    return f"expected {_short(a)}, observed {_short(b)}"
